@@ -145,7 +145,9 @@ Record wf (sw : switches) (s : state) : Prop := {
                match ph s with
                | Configured | Closing => forallb (Nat.eqb (gen s)) (runners s) = true
                | _ => runners s = []
-               end
+               end;
+  (* with a channel per Start no Configure result outlives its session *)
+  wf_stale : cfg_chan_shared sw = false -> stale_cfg s = false
 }.
 
 (* the events a healthy runtime produces for one Start *)
@@ -156,7 +158,7 @@ Definition healthy_start : list action := [AStart; EDialOk; ISetupOk; ERegOk; EC
 Definition same_session (s s' : state) : Prop :=
   ph s' = ph s /\ started s' = started s /\ sconn s' = sconn s /\ gen s' = gen s /\ cli_open s' = cli_open s /\
   waiters s' = waiters s /\ established s' = established s /\ last_start s' = last_start s /\
-  runners s' = runners s.
+  runners s' = runners s /\ stale_cfg s' = stale_cfg s.
 
 
 (* Configure hands its result to Start on every way it can end *)
